@@ -413,6 +413,13 @@ class Quaternion(SMUserList):
 
         :seealso: :func:`~spatialmath.quaternion.Quaternion.log`, :func:`~spatialmath.quaternion.UnitQuaternion.log`, :func:`~spatialmath.quaternion.UnitQuaternion.AngVec`, :func:`~spatialmath.quaternion.UnitQuaternion.EulerVec`
         """
+        if len(self) > 1:
+            # map over the values; the result is a unit quaternion only if
+            # every value's exponential is one
+            vals = [q.exp() for q in self]
+            if all(isinstance(x, UnitQuaternion) for x in vals):
+                return UnitQuaternion([x._A for x in vals], norm=False)
+            return Quaternion([x._A for x in vals])
         exp_s = math.exp(self.s)
         norm_v = base.norm(self.v)
         s = exp_s * math.cos(norm_v)
